@@ -174,22 +174,35 @@ def file_mask(L, n, m, sn):
 # ----------------------------------------------------------------------------------------------
 
 def gen_names(r, nf):
+    """nf distinct file names.  Half of the runs draw from families in which one name is a proper prefix of
+    another (a.c / a.cc / a.c.orig, x / xy, kernel.c / kernel.cc ...), in random order, so that an interning that
+    does not compare whole strings merges two of them whichever is met first."""
     names, seen = [], set()
-    while len(names) < nf:
-        k = r.below(6)
-        if k == 0:
-            s = "%c.c" % chr(97 + r.below(26))
-        elif k == 1:
-            s = "src/dir%d/file_%d.cc" % (r.below(4), r.below(1000))
-        elif k == 2:
-            s = "f%d" % r.below(100000)
-        elif k == 3:
-            s = "/usr/include/very/long/path/number/%d/header_%d.hpp" % (r.below(9), r.below(100))
-        else:
-            s = "t%d.c" % r.below(60)
-        if s not in seen:
+
+    def add(s):
+        if s not in seen and len(names) < nf:
             seen.add(s)
             names.append(s)
+    prefixy = r.chance(1, 2)
+    while len(names) < nf:
+        k = r.below(8 if prefixy else 6)
+        if k == 0:
+            add("%c.c" % chr(97 + r.below(26)))
+        elif k == 1:
+            add("src/dir%d/file_%d.cc" % (r.below(4), r.below(1000)))
+        elif k == 2:
+            add("f%d" % r.below(100000))
+        elif k == 3:
+            add("/usr/include/very/long/path/number/%d/header_%d.hpp" % (r.below(9), r.below(100)))
+        elif k in (4, 5):
+            add("t%d.c" % r.below(60))
+        else:
+            base = r.choice(["a.c", "kernel.c", "x.h", "x", "q", "src/m.c", "t%d.c" % r.below(60), "%c" % chr(97 + r.below(26))])
+            fam = [base, base + "c", base + "pp", base + ".orig", base + base, base[:1], base + "0", base[:max(1, len(base) - 1)]]
+            r.shuffle(fam)
+            for f in fam[:r.rng(2, len(fam))]:
+                add(f)
+    r.shuffle(names)
     return names
 
 
@@ -682,9 +695,32 @@ def oracle(case_line, blk, L):
         return "the recorded tree has %d nodes, the dumped dag %d" % (len(tp), D1.n)
     dp = sorted((D1.names[x[F_START_FIDX]], D1.names[x[F_END_FIDX]], str(x[F_START_LINE]), str(x[F_END_LINE])) for x in D1.T)
     if dp != tp:
-        return "code positions (file names through the string table, lines) differ between the recorded tree and the dumped dag"
+        only_tree = [t4 for t4 in tp if t4 not in set(dp)][:1]
+        ex = ""
+        if only_tree:
+            t4 = only_tree[0]
+            ex = " (e.g. a node recorded from %s:%s to %s:%s is not read back with these positions)" % (
+                bytes.fromhex(t4[0][1:]).decode("latin1"), t4[2], bytes.fromhex(t4[1][1:]).decode("latin1"), t4[3])
+        return "code positions (file names through the string table, lines) differ between the recorded tree and the dumped dag" + ex
     if int(tl.split()[1]) != D1.sc or int(tl.split()[2]) != D1.nw:
         return "start clock / number of workers differ"
+    distinct = set(x for t4 in tp for x in t4[:2])
+    if D1.sn != len(distinct) or set(D1.names) != distinct:
+        return "%d distinct file names were recorded, the string table of the dumped dag has %d" % (len(distinct), D1.sn)
+    # the shrunk dag: every node keeps the code position (names read through ITS string table) of a recorded node,
+    # and its string table holds exactly the names its nodes use
+    import collections
+    avail = collections.Counter(tp)
+    used2 = set()
+    for i, x in enumerate(D2.T):
+        key = (D2.names[x[F_START_FIDX]], D2.names[x[F_END_FIDX]], str(x[F_START_LINE]), str(x[F_END_LINE]))
+        used2.update(key[:2])
+        if avail[key] <= 0:
+            return "shrunk dag: node %d reads back at %s:%s-%s:%s, no recorded node has this code position" % (
+                i, bytes.fromhex(key[0][1:]).decode("latin1"), key[2], bytes.fromhex(key[1][1:]).decode("latin1"), key[3])
+        avail[key] -= 1
+    if set(D2.names) != used2:
+        return "shrunk dag: the string table holds %d names, its nodes use %d" % (D2.sn, len(used2))
     # shrinking keeps the totals
     r1, r2 = list(D1.T[0][:N_INFO]), list(D2.T[0][:N_INFO])
     n1, n2 = (D1.names[r1[F_START_FIDX]], D1.names[r1[F_END_FIDX]]), (D2.names[r2[F_START_FIDX]], D2.names[r2[F_END_FIDX]])
